@@ -16,6 +16,7 @@ import (
 	"regexp"
 	"sort"
 	"strconv"
+	"sync/atomic"
 	"time"
 
 	"github.com/Tnze/go-mc/save/region"
@@ -835,10 +836,20 @@ func regRejudge(env *vk.Env, sc regScenario, maxTorn int) (sig string, rejected 
 	return sig, true
 }
 
+// regClock: WriteSector's clock under the harness's control (overlays/region_clock_export.go): every stamp is different,
+// so a stamp that changes in memory but not in the header (or the other way round) shows in every run, not only when the
+// wall clock happens to tick between two writes.
+var regTick atomic.Int64
+
+func regInstallClock() {
+	region.VerifSetClock(func() time.Time { return time.Unix(1_700_000_000+regTick.Add(1), 0) })
+}
+
 func runRegion(env *vk.Env, crash bool) {
+	regInstallClock()
 	env.Cov.Rule = "S: TLC explores Region.tla exhaustively (every physical write its own action; Crash and torn data writes enabled between any two). A: TLC -simulate behaviours (FirstFit generator) concretised to byte lengths at sector boundaries and replayed on save/region. B: seeded random histories on memory / WriterAt / real-file backings. Every recorded execution (allocation decision, each physical write, reads, Load, crash probes after every write prefix and torn offsets, independent Anvil parse) is validated step by step by Region_Trace. Distinct/non-trivial = distinct (event kind, detail) classes observed in accepted traces."
 	env.Assume = []string{
-		"timestamps are opaque tokens (only equalities between memory, disk and reload are specified)",
+		"timestamps are opaque tokens (only equalities between memory, disk and reload are specified); WriteSector's clock is the harness's (a build-time copy of mca.go with time.Now() -> verifNow(time.Now())): every stamp is different",
 		"zero-length chunks and chunk data shorter than 9 bytes are not generated (the content header identifying chunk/version needs 9 bytes)",
 		"torn writes larger than 3 sectors are probed at sampled 512-byte boundaries, not all",
 		"media-level reordering of completed writes is not modelled (the property speaks of prefixes of the issued writes)",
@@ -918,6 +929,7 @@ func runRegion(env *vk.Env, crash bool) {
 }
 
 func replayRegion(env *vk.Env, b []byte, crash bool) {
+	regInstallClock()
 	var f struct {
 		Replay struct {
 			Scenario regScenario `json:"scenario"`
